@@ -77,7 +77,10 @@ structure Safe (cfg : Cfg) (nd : Node) (b : Block) : Prop where
   (`newstate_system_contract_height_counterexample`) -/
   noSysEmptied : cfg.legacy = false → ∀ a, isSys a = true → (Map.get nd.st.contracts a).isSome = true →
     storageEmpty (writeStorage nd.st.storage b.diff.storage) a = false
-  /-- before 702b167: the block does not close a filter window (`reopened_window_counterexample`) -/
+  /-- legacy backend as found: no class hash is listed twice among the declared classes
+  (`legacy_duplicate_declaration_counterexample`) -/
+  noDupDeclared : cfg.dupTolerant = false → (b.diff.declV0 ++ Map.keys b.diff.declV1).Nodup
+  /-- before 702b167: the block does not close a filter window (`reopened_window_kept_before_702b167`) -/
   window : cfg.dropReopenedWindow = true ∨ b.number ≠ nd.running.fromBlock + cfg.window - 1
 
 theorem store_inv {cfg : Cfg} (hc : cfg.asFound) {nd nd' : Node} {b : Block}
@@ -98,7 +101,7 @@ theorem store_inv {cfg : Cfg} (hc : cfg.asFound) {nd nd' : Node} {b : Block}
   | false =>
     have ninv : NewInv nd.st b.number := hn ▸ inv.newInv hleg
     obtain ⟨s', n'⟩ := new_update_inv hleg sinv ninv ok.dDep ok.dRep ok.dNon ok.dSto ok.dDecl ok.dMig ok.dDefs ok.migVer
-      ok.decl1 ok.casmFresh ok.depNotSys ok.depRep (safe.noSysEmptied hleg) hsc hus
+      ok.decl1 ok.casmFresh ok.depNotSys (safe.noSysEmptied hleg) hsc hus
     refine ⟨hidx, ?_, ?_, fun _ => ?_⟩
     · rw [hnext, ← hn, hnd]; exact f''
     · rw [hnext, ← hn, hnd]; exact s'
@@ -118,7 +121,7 @@ theorem stepOK_of_inv {cfg : Cfg} (hc : cfg.asFound) {nd nd' : Node} {b : Block}
   obtain ⟨_, gCa, hmig⟩ := storeCasm_info b.number sinv.sCasm ok.dDecl ok.dMig ok.migVer hsc''
   have cls : ClassesOK cfg nd.st casm'' b :=
     { sCl := sinv.sCl, sTr := sinv.sTr, classAt := sinv.classAt, trieSub := sinv.trieSub,
-      dDecl := ok.dDecl, dMig := ok.dMig, dDefs := ok.dDefs, nodup := ok.nodup, known0 := ok.known0, decl1 := ok.decl1,
+      dDecl := ok.dDecl, dMig := ok.dMig, dDefs := ok.dDefs, nodup := safe.noDupDeclared, known0 := ok.known0, decl1 := ok.decl1,
       defsListed := ok.defsListed,
       migOK := fun c y hcy => by
         obtain ⟨md, hmd, hm0, _, hpos⟩ := hmig c y hcy
@@ -261,5 +264,98 @@ theorem revertN_storeAll_good {cfg : Cfg} (hc : cfg.asFound) (bs : List Block) :
       show (match revertN cfg ndA bs.length with | .ok nd' => revert cfg nd' | .error e => .error e) = _
       rw [h1]
       exact revert_store_step (stepOK_of_inv hc (good_inv hc g) hstep.block hstep.safe hs) hs
+
+/-! ### The chain a history leaves behind -/
+
+/-- successful stores push their block, successful reverts pop the head block -/
+def netStep (cfg : Cfg) (p : Node × List Block) : Op → Node × List Block
+  | .store b => match store cfg p.1 b with | .ok nd' => (nd', b :: p.2) | .error _ => p
+  | .revert => match revert cfg p.1 with | .ok nd' => (nd', p.2.tail) | .error _ => p
+
+/-- the blocks (oldest first) that were stored and not reverted afterwards -/
+def net (cfg : Cfg) (ops : List Op) : List Block := ((ops.foldl (netStep cfg) (Node.init, [])).2).reverse
+
+/-- `nd` is what storing the blocks `st` (newest first) on the empty node gives, every step acceptable -/
+inductive Hist (cfg : Cfg) : Node → List Block → Prop where
+  | init : Hist cfg Node.init []
+  | store {nd nd' : Node} {st : List Block} {b : Block} :
+      Hist cfg nd st → StoreOK cfg nd b → store cfg nd b = .ok nd' → Hist cfg nd' (b :: st)
+
+theorem hist_good {cfg : Cfg} {nd : Node} {st : List Block} (h : Hist cfg nd st) : Good cfg nd := by
+  induction h with
+  | init => exact Good.init
+  | store _ ok hs ih => exact Good.store ih ok hs
+
+theorem storeAll_snoc (cfg : Cfg) (bs : List Block) (b : Block) :
+    ∀ (nd nd1 nd2 : Node), storeAll cfg nd bs = .ok nd1 → store cfg nd1 b = .ok nd2 → storeAll cfg nd (bs ++ [b]) = .ok nd2 := by
+  induction bs with
+  | nil =>
+    intro nd nd1 nd2 h1 h2
+    simp only [storeAll] at h1
+    cases h1
+    simp only [List.nil_append, storeAll, h2]
+  | cons x xs ih =>
+    intro nd nd1 nd2 h1 h2
+    simp only [storeAll] at h1
+    cases hx : store cfg nd x with
+    | error e => rw [hx] at h1; cases h1
+    | ok ndx =>
+      rw [hx] at h1
+      simp only [List.cons_append, storeAll, hx]
+      exact ih ndx nd1 nd2 h1 h2
+
+theorem hist_storeAll {cfg : Cfg} {nd : Node} {st : List Block} (h : Hist cfg nd st) :
+    storeAll cfg Node.init st.reverse = .ok nd := by
+  induction h with
+  | init => rfl
+  | store _ _ hs ih =>
+    rw [List.reverse_cons]
+    exact storeAll_snoc cfg _ _ _ _ _ ih hs
+
+theorem netStep_hist {cfg : Cfg} (hc : cfg.asFound) {nd : Node} {st : List Block} (h : Hist cfg nd st) (op : Op)
+    (hop : match op with | .store b => (∀ nd', store cfg nd b = .ok nd' → StoreOK cfg nd b) | .revert => True) :
+    Hist cfg (netStep cfg (nd, st) op).1 (netStep cfg (nd, st) op).2 ∧ (netStep cfg (nd, st) op).1 = step cfg nd op := by
+  cases op with
+  | store b =>
+    simp only [netStep, step]
+    cases hs : store cfg nd b with
+    | error e => exact ⟨h, rfl⟩
+    | ok nd' => exact ⟨Hist.store h (hop nd' hs) hs, rfl⟩
+  | revert =>
+    simp only [netStep, step]
+    cases h with
+    | init =>
+      rw [revert_noHead (cfg := cfg) (nd := Node.init) rfl]
+      exact ⟨Hist.init, rfl⟩
+    | store h0 ok hs =>
+      rename_i nd0 st0 b
+      have hstep := stepOK_of_inv hc (good_inv hc (hist_good h0)) ok.block ok.safe hs
+      rw [revert_store_step hstep hs]
+      exact ⟨h0, rfl⟩
+
+/-- A history from a node with known chain: the node reached is the one the history computes with
+failing operations skipped, and its chain is the net chain. -/
+theorem foldl_netStep {cfg : Cfg} (hc : cfg.asFound) (ops : List Op) :
+    ∀ {nd : Node} {st : List Block}, Hist cfg nd st → HistOK cfg nd ops →
+      Hist cfg (ops.foldl (netStep cfg) (nd, st)).1 (ops.foldl (netStep cfg) (nd, st)).2 ∧
+      (ops.foldl (netStep cfg) (nd, st)).1 = run cfg nd ops := by
+  induction ops with
+  | nil => intro nd st h _; exact ⟨h, rfl⟩
+  | cons op ops ih =>
+    intro nd st h hok
+    cases op with
+    | store b =>
+      obtain ⟨h1, h2⟩ := hok
+      obtain ⟨hh, he⟩ := netStep_hist hc h (.store b) h1
+      have := ih (nd := (netStep cfg (nd, st) (.store b)).1) (st := (netStep cfg (nd, st) (.store b)).2) hh (by rw [he]; exact h2)
+      simp only [List.foldl_cons, run]
+      rw [← he]
+      exact this
+    | revert =>
+      obtain ⟨hh, he⟩ := netStep_hist hc h .revert trivial
+      have := ih (nd := (netStep cfg (nd, st) .revert).1) (st := (netStep cfg (nd, st) .revert).2) hh (by rw [he]; exact hok)
+      simp only [List.foldl_cons, run]
+      rw [← he]
+      exact this
 
 end Juno.C04
